@@ -25,6 +25,25 @@ CHECKS["C02"] = {
     "note": TRUST + " 'A write through one view is seen through all others' is entailed by same address + same extent and is not separately observed.",
 }
 
+CHECKS["C09"] = {
+    "technique": "MIR abstract interpretation: symbolic piece maps (base, byte offset, extent) vs the Vec-operation spec; tiling proof; guard-dominance for the bounds assert",
+    "text": "Static analysis of the polymorphic MIR (N, K, M and the index symbolic): for append/prepend/pop_back/pop_front/split (owned, &, &mut)/concat/remove(_unchecked)/swap_remove(_unchecked) every raw read, write, copy and swap is extracted with its symbolic byte offset and extent and compared with the specification of the corresponding Vec operation: which source range lands at which destination offset or result position, exact tiling of source/destination (nothing lost, duplicated or out of bounds), order of read / shift / truncating copy by dominance, idx < N proven at the call of the unchecked body with self not yet neutralised, unreachable_unchecked infeasible under that precondition, reference halves disjoint + adjacent + covering with no copy. Universally quantified over lengths and element types; nothing is executed.",
+    "design_ref": "DESIGN.md §3 C09",
+    "note": TRUST + " The panic message text is not checked.",
+}
+CHECKS["C10"] = {
+    "technique": "MIR abstract interpretation with floor-division axioms: tiling proof of the two from_raw_parts pieces; symbolic size equality at slice transmutes",
+    "text": "Static analysis of the polymorphic MIR (slice length L and N symbolic): the two pieces built by chunks_from_slice(_mut) are proved to tile the source exactly (adjacent, no overlap, end at L), the remainder to be < N, the pieces to be reached only under N != 0, and the N = 0 branch to return empties only under L = 0 and to panic under L != 0; slice_from_chunks(_mut) covers exactly len*N elements from offset 0; from_chunks/into_chunks(_mut) transmute between slices of equal element size under the Const<U>: IntoArrayLength<ArrayLength = N> clause and return the source fat pointer; lifetimes/mutability tied to the source. PARTIAL: acceptance by the compiler's const evaluator is an execution and is not decided here.",
+    "design_ref": "DESIGN.md §3 C10",
+    "note": TRUST + " len*N overflow for zero-sized T with astronomically long slices is excluded by assumption.",
+}
+CHECKS["C11"] = {
+    "technique": "MIR abstract interpretation: symbolic size identities at const_transmute / reference transmutes; size-guard dominance inside const_transmute",
+    "text": "Static analysis of the six flatten/unflatten bodies (N, M, NM symbolic): owned forms are exactly one const_transmute whose source and target sizes are equal as polynomials (flatten) or target <= source with equality iff N | NM (unflatten; the guard inside const_transmute - union read dominated by size_of A == size_of B - is checked too); reference forms are exactly one transmute of the reference itself (same address), equal / in-bounds pointee extents, same mutability, lifetime tied to the receiver. Row-major order follows from contiguity (C01).",
+    "design_ref": "DESIGN.md §3 C11",
+    "note": TRUST + " typenum's Prod/Quot semantics are trusted.",
+}
+
 NOT_APPLICABLE = {}
 
 PENDING = "check under construction in this round; see DESIGN.md"
